@@ -81,7 +81,10 @@ def build():
         if r.returncode != 0:
             print(r.stderr[-3000:]); sys.exit(2)
         import shutil
-        shutil.copy2(os.path.join(V, "replay/target/shared/debug/dv"), os.path.join(V, "replay/target/dv"))
+        # atomic replace: another check may be EXECUTING replay/target/dv right now (ETXTBSY on overwrite)
+        tmp = os.path.join(V, "replay/target/dv.%d.tmp" % os.getpid())
+        shutil.copy2(os.path.join(V, "replay/target/shared/debug/dv"), tmp)
+        os.replace(tmp, os.path.join(V, "replay/target/dv"))
 
 def main():
     n = int(sys.argv[1]) if len(sys.argv) > 1 else 20000
